@@ -85,6 +85,14 @@ def spline_replay(orders=(3, 5, 7), dims=range(1, 11)):
     return build("spline_replay", units, os.path.join(HARNESS, "spline_main.cpp"))
 
 
+def ppoly_replay():
+    units = []
+    for d in (1, 2, 3, 4):
+        for o in (-1, 4, 6, 8, 12):
+            units.append((os.path.join(HARNESS, "ppoly_box.cpp"), "pbox_%d_%s" % (d, "dyn" if o < 0 else o), ["-DPP_DIM=%d" % d, "-DPP_ORD=%d" % o]))
+    return build("ppoly_replay", units, os.path.join(HARNESS, "ppoly_main.cpp"))
+
+
 def java_classes():
     out = os.path.join(CACHE, "classes")
     srcs = glob.glob(os.path.join(VERIF, "overrides", "tlc2", "overrides", "*.java"))
